@@ -79,7 +79,8 @@ def mk_owner(kind, mode, raising):
     """kind: any | int | event | expression"""
     logs = {"static": [], "otc": [], "observe": [], "other": []}
     md = {"comparison_mode": mode}
-    if kind in ("any", "any-magic", "any-subdefault", "any-second-use"):
+    foreign = None
+    if kind in ("any", "any-magic", "any-subdefault", "any-second-use", "any-shared-ctrait"):
         tr = Any(**md)
     elif kind == "int":
         tr = Int(**md)
@@ -110,6 +111,32 @@ def mk_owner(kind, mode, raising):
 
             def _x_changed(self, old, new):
                 logs["static"].append((old, new))
+    elif kind == "any-shared-ctrait":
+        # ONE CTrait object (what Trait(...) returns; customary for enumerations defined once at module level) declared for
+        # several attributes of this class and of another: every attribute has its own static handlers
+        ct = tr.as_ctrait()
+
+        class Pen(HasTraits):
+            color = ct
+
+        class Owner(HasTraits):
+            w = ct
+            x = ct
+            y = ct
+
+            def _w_changed(self, old, new):
+                logs["static"].append(("foreign handler _w_changed", old, new))
+
+            def _x_changed(self, old, new):
+                logs["static"].append((old, new))
+
+            def _y_changed(self, old, new):
+                logs["static"].append(("foreign handler _y_changed", old, new))
+
+        def foreign():
+            Pen().color = 5
+            p = Pen()
+            p.color = 6
     elif kind == "any-magic":
         # an @observe-decorated method that happens to carry a magic name, inherited by the class in use: it is an observe
         # handler (one TraitChangeEvent per change), not ALSO a static handler
@@ -154,6 +181,8 @@ def mk_owner(kind, mode, raising):
     o.on_trait_change(otc, "x")
     o.observe(obs, "x")
     o.on_trait_change(other, "x")
+    if foreign is not None:
+        logs["_foreign"] = (foreign,)
     return o, logs
 
 
@@ -249,6 +278,7 @@ def make_harness(tkind, mode, kinds, raising, first_read, default_eh=False):
 
     def body(ex):
         o, logs = mk_owner(tkind, mode, raising)
+        foreign = logs.pop("_foreign", None)
         it = cenv.new_interp() if ex.sym else None
         if first_read and tkind != "event":
             d = read_attr(ex, it, o, "x")
@@ -324,6 +354,11 @@ def make_harness(tkind, mode, kinds, raising, first_read, default_eh=False):
                     ex.check(ln is exp_new, "%s: reported new is what is readable after" % m)
             obs_out.append([accept, bool(fires)])
             prev = o.__dict__.get("x", prev)
+        if foreign:
+            n0 = {m: len(v) for m, v in logs.items()}
+            foreign[0]()
+            ex.check(all(len(v) == n0[m] for m, v in logs.items()), "assignments to attributes of ANOTHER class declared with the same "
+                                                                    "definition object reach none of this object's handlers")
         return {"steps": obs_out}
 
     return harness
@@ -401,6 +436,84 @@ def deferred_harness(k):
     return harness
 
 
+def deferred_event_harness(k):
+    """deferring traits whose target is an EVENT: every assignment fires, with old Undefined, the handlers (static, on_trait_change,
+    observe) of the object that was assigned to - a PrototypedFrom event is fired on the deferring object alone, a DelegatesTo
+    event on the delegate (and mirrored on the deferring object iff listenable); rejected values fire nothing"""
+    from traits.api import Instance, DelegatesTo, PrototypedFrom
+
+    def harness(ex):
+        push_exception_handler(lambda *a: None, reraise_exceptions=False)
+        try:
+            proto = ex.flag("prototyped")
+            listenable = ex.flag("listenable")
+            calls = []
+
+            class Child(HasTraits):
+                fire = Event(Int)
+
+                def _fire_fired(self, old, new):
+                    calls.append(("child", "static", old, new))
+
+            class Parent(HasTraits):
+                child = Instance(Child, ())
+                fire = (PrototypedFrom if proto else DelegatesTo)("child", listenable=listenable)
+
+                def _fire_fired(self, old, new):
+                    calls.append(("parent", "static", old, new))
+
+            p = Parent()
+            late = ex.flag("child_handlers_attached_first")
+            def attach_child():
+                p.child.on_trait_change(lambda o, n, old, new: calls.append(("child", "otc", old, new)), "fire")
+                p.child.observe(lambda e: calls.append(("child", "observe", e.old, e.new)), "fire")
+            if late:
+                attach_child()
+            p.on_trait_change(lambda o, n, old, new: calls.append(("parent", "otc", old, new)), "fire")
+            p.observe(lambda e: calls.append(("parent", "observe", e.old, e.new)), "fire")
+            if not late:
+                attach_child()
+            val = 2000
+            for step in range(k):
+                op = ex.choice("op%d" % step, 4)
+                val += 1 if op != 3 else 0          # op 3 fires the same value again: an event has no 'unchanged'
+                del calls[:]
+                exc = None
+                try:
+                    if op in (0, 3):
+                        p.fire = val
+                    elif op == 1:
+                        p.child.fire = val
+                    else:
+                        p.fire = "not an int"
+                except TraitError as e:
+                    exc = e
+                mech = ("observe", "otc", "static")
+                def want(who):
+                    return sorted((who, m, Undefined, val) for m in mech)
+                got = {who: sorted(c for c in calls if c[0] == who) for who in ("parent", "child")}
+                if op == 2:
+                    ex.check(exc is not None and calls == [], "a value the event's type rejects raises TraitError and fires nothing")
+                elif op in (0, 3):
+                    ex.check(exc is None, "firing through the deferring attribute is accepted")
+                    if proto:
+                        ex.check(got["parent"] == want("parent"), "a PrototypedFrom event fires every handler of the deferring object exactly once, old Undefined")
+                        ex.check(got["child"] == [], "a PrototypedFrom event does not fire the prototype's own handlers")
+                    else:
+                        ex.check(got["child"] == want("child"), "a DelegatesTo event fires every handler of the delegate exactly once, old Undefined")
+                        ex.check(got["parent"] == (want("parent") if listenable else []),
+                                 "a DelegatesTo event is mirrored on the deferring object exactly once iff listenable")
+                else:
+                    ex.check(got["child"] == want("child"), "the target's own event fires the target's handlers exactly once")
+                    if not proto:
+                        ex.check(got["parent"] == (want("parent") if listenable else []),
+                                 "a DelegatesTo event is mirrored on the deferring object exactly once iff listenable")
+            return {"proto": proto}
+        finally:
+            pop_exception_handler()
+    return harness
+
+
 def obligations(tier, build):
     cenv.load_program(build)
     obs = []
@@ -447,7 +560,7 @@ def obligations(tier, build):
                                   bounds={"history": list(seq), "comparison mode": mode.name,
                                           "quiet update": "trait_setq / trait_set(trait_change_notify=False), natively"},
                                   leverage="equality of payloads", max_paths=2000))
-        for owner_ in ("any-subdefault", "any-second-use"):
+        for owner_ in ("any-subdefault", "any-second-use", "any-shared-ctrait"):
             for seq in [("int", "int"), ("int", "same"), ("int", "float"), ("none", "none")]:
                 obs.append(Obligation("%s/%s/%s" % (owner_, mode.name, "-".join(seq)), make_harness(owner_, mode, seq, None, False), stubs=STUBS,
                                       bounds={"history": list(seq), "comparison mode": mode.name,
@@ -474,6 +587,10 @@ def obligations(tier, build):
                                           "exception handler": "observe's default (logging)"},
                                   leverage="choice feasibility only", max_paths=2000))
     KD = 3 if tier == "quick" else 4
+    obs.append(Obligation("deferred-event/k=2", deferred_event_harness(2), stubs=[],
+                          bounds={"history length": 2, "operations": ["fire through the deferring attribute", "fire on the target", "rejected value", "same value again"],
+                                  "deferral": "DelegatesTo / PrototypedFrom, listenable or not"},
+                          leverage="choice feasibility only (compiled code runs concretely)"))
     obs.append(Obligation("deferred/k=%d" % KD, deferred_harness(KD), stubs=[],
                           bounds={"history length": KD, "operations": ["assign via the deferring attribute", "assign on the delegate",
                                                                         "delete the local value", "detach and re-attach the handlers"],
